@@ -196,6 +196,10 @@ def build(topo: Topo, P: dict, order: Optional[list] = None, rename=None, via_pa
     )
 
     rn = rename or (lambda s: s)
+
+    def fresh(text):
+        """an equal but not interned copy (as read from a file or built at run time): code must compare strings by value"""
+        return "".join([text[:1], text[1:]]) if len(text) > 1 else text
     nodes = {n: Node(name=rn(n)) for n in topo.nodes}
     links = {}
     for l in topo.links:
@@ -216,10 +220,10 @@ def build(topo: Topo, P: dict, order: Optional[list] = None, rename=None, via_pa
         elif k == "main":
             origins[o] = MainstreamOrigin(name=rn(o))
         elif k in ("ramp_in", "ramp_out"):
-            origins[o] = MeteredOnRamp(P[f"C_{o}"], flow_eq_type=k[5:], name=rn(o))
+            origins[o] = MeteredOnRamp(P[f"C_{o}"], flow_eq_type=fresh(k[5:]), name=rn(o))
         else:
             origins[o] = SimplifiedMeteredOnRamp(
-                P[f"C_{o}"], flow_eq_type="limited" if k == "simp_lim" else "unlimited", name=rn(o))
+                P[f"C_{o}"], flow_eq_type=fresh("limited" if k == "simp_lim" else "unlimited"), name=rn(o))
     dests = {}
     for n, (d, k) in topo.dests.items():
         dests[d] = Destination(name=rn(d)) if k == "free" else CongestedDestination(name=rn(d))
